@@ -101,6 +101,8 @@ class ClassObj(Obj):
     def __init__(self, name, bases=(), **own):
         self._name = name
         self.own = dict(own)
+        self.own.setdefault('__name__', name)
+        self.own.setdefault('__qualname__', name)
         self.bases = list(bases)
         self.attrs = _ClassAttrs(self)
 
